@@ -338,6 +338,7 @@ type cliOut struct {
 	File         string              `json:"file"`
 	Reloaded     map[string]string   `json:"reloaded"`
 	ReloadReset  bool                `json:"reload_reset"`
+	Notified     [][]string          `json:"notified"`
 	LoadError    string              `json:"load_error"`
 }
 
@@ -357,7 +358,7 @@ func lookup(doc map[string]any, path string) (any, bool) {
 }
 
 var subCLI = ev.Register("cli-overrides",
-	"a start-up sequence in a child process (load var/config.json, apply a generated set of command-line flags through OverrideFromFlags, then apply 0-3 generated API-style update documents, some addressing the overridden settings); oracle: the effective value of every overridden setting is the flag value before and after every update; the file never contains a flag value (it holds the base or updated value); reloading the file without flags yields the file values and they equal the non-overridden effective values; a file saved by an accepted update (also one giving an unusable value for an overridden setting) is loaded by the next start-up, not reset; an update that gives an overridden setting the flag's own value is saved like any other; non-trivial = an override is followed by an update of the same setting; distinct by (flag set, update documents)",
+	"a start-up sequence in a child process (load var/config.json, apply a generated set of command-line flags through OverrideFromFlags, then apply 0-3 generated API-style update documents, some addressing the overridden settings); oracle: the effective value of every overridden setting is the flag value before and after every update, and so is every value its listeners are told; the file never contains a flag value (it holds the base or updated value); reloading the file without flags yields the file values and they equal the non-overridden effective values; a file saved by an accepted update (also one giving an unusable value for an overridden setting) is loaded by the next start-up, not reset; an update that gives an overridden setting the flag's own value is saved like any other; non-trivial = an override is followed by an update of the same setting; distinct by (flag set, update documents)",
 	func(c CLICase, o *ev.Obs) *ev.Failure {
 		bin := filepath.Join(os.Getenv("VERIF_BIN_DIR"), "cfgcli")
 		if _, err := os.Stat(bin); err != nil {
@@ -408,6 +409,16 @@ var subCLI = ev.Register("cli-overrides",
 			for i, vec := range out.AfterUpdates {
 				if got := vec[p]; got != f.Want {
 					return ev.Failf("cli.override-lost-after-update", "flag -%s=%s: after update %d (%v, error %q) the effective %s is %q", f.Name, f.Value, i, c.Updates[i], out.UpdateErrors[i], p, got)
+				}
+			}
+		}
+		// the components run with what their listeners are told: for an overridden setting that is the flag's value,
+		// whatever an update stores underneath
+		for i, told := range out.Notified {
+			for _, n := range told {
+				path, val, _ := strings.Cut(n, "=")
+				if f, ok := overridden[path]; ok && val != f.Want {
+					return ev.Failf("cli.override-lost-for-listeners", "flag -%s=%s: while update %d (%v) was applied, the listeners of %s were told %q - the running components follow the file value instead of the flag", f.Name, f.Value, i, c.Updates[i], path, val)
 				}
 			}
 		}
